@@ -576,10 +576,13 @@ func (txn *Txn) commitAndSend() (func() error, error) {
 	// var b strings.Builder
 	// fmt.Fprintf(&b, "Read: %d. Commit: %d. reads: %v. writes: %v. Keys: ",
 	// 	txn.readTs, commitTs, txn.reads, txn.conflictKeys)
-	for _, e := range txn.pendingWrites {
+	// The duplicates are older writes of keys that were written again later. They must be
+	// handed to the writer before the current pending entries: for equal key and version the
+	// memtable keeps the last write, and the later call has to win.
+	for _, e := range txn.duplicateWrites {
 		processEntry(e)
 	}
-	for _, e := range txn.duplicateWrites {
+	for _, e := range txn.pendingWrites {
 		processEntry(e)
 	}
 
